@@ -294,6 +294,10 @@ def replay_terminal_info(obl):
     return dict(confirmed=bool(bad), failing_history=bad[:4], note="one Device object: terminal_info(), change, terminal_info() again, compared with a fresh Device on the same mesh")
 
 
+def replay_scope(unit, obl):
+    return (obl or {}).get("name", "") if unit.startswith("step_at_pinned_site") else "unit"
+
+
 def replay(unit, obl):
     if unit == "Device.terminal_info":
         return replay_terminal_info(obl)
